@@ -157,6 +157,10 @@ def ghost_specs():
     DS2 = z3.Function("ds2", z3.StringSort(), z3.ArraySort(INT, REAL), INT, INT, INT, INT, INT, REAL)
     S["ds2"] = GhostSpec("ds2", lambda e, st, a: VReal(DS2(a[0].t if a[0].s is None else z3.StringVal(a[0].s), a[1].t,
                                                            *[smt.som(e.to_int(x)) for x in a[2:7]])))
+    def med1(e, st, a):
+        from .models import MED1
+        return VReal(MED1(a[0].t, smt.som(e.to_int(a[1])), e.to_int(a[2])))
+    S["med1"] = GhostSpec("med1", med1)
     GOODF = z3.Function("GOOD", INT, INT)
     S["GOOD"] = GhostSpec("GOOD", lambda e, st, a: VInt(GOODF(smt.som(e.to_int(a[0])))))
     S["sympad"] = GhostSpec("sympad", sympad)
